@@ -18,7 +18,7 @@ TRUSTED = ['model coq/theories/Asap.v = the dispatch and error mapping of Applic
            'parameter decoding and service execution enter the model as observed outcomes (they are modelled under C03/C15/C16)',
            'the transport half (ServerSSM) is modelled under C04/C12']
 ASSUMPTIONS = ['replies are observed on the virtual LAN by a bare node with an independent minimal NPDU/APDU parser',
-               'link-layer (BVLL) garbage is exercised below AnnexJCodec in the direct check only']
+               'link-layer (BVLL) garbage is injected as raw datagrams toward a B/IP device (BIPSimple + AnnexJCodec over a socket-free multiplexer) in the direct check']
 
 INVOKE = 33
 REASONS = {'other': 0, 'bufferOverflow': 1, 'inconsistentParameters': 2, 'invalidParameterDatatype': 3, 'invalidTag': 4,
@@ -321,6 +321,70 @@ def direct(rng, tier, focus=()):
                 break
             inv += 1
         nontriv.add(('routed', snet, sadr, tuple(str(x.address) for x in order)))
+    # link layer: corrupted / truncated / random BACnet/IP datagrams toward a B/IP device, with a valid
+    # Original-Unicast request in the same instant and one afterwards
+    import vnet
+    from bacpypes.vlan import IPNetwork
+    from bacpypes.service.object import ReadWritePropertyServices
+    from bacpypes.service.device import WhoIsIAmServices
+    from bacpypes.appservice import SSM
+
+    def bvll(fn, payload, length=None):
+        ln = len(payload) + 4 if length is None else length
+        return bytes([0x81, fn, (ln >> 8) & 255, ln & 255]) + payload
+    rp = pool[1][1]          # ReadProperty of the device's objectList[1]: every device has it
+    for _ in range(3000 if tier == 'thorough' else 400):
+        n += 1
+        clock = vnet.VClock(); net = IPNetwork('ip')
+        dev = vnet.BIPStack(clock, net, '192.168.1.10/24', 1, services=[WhoIsIAmServices, ReadWritePropertyServices], max_apdu=1476)
+        raw = vnet.RawIPNode(net, '192.168.1.20/24')
+        frames = []
+        for _ in range(rng.randrange(1, 5)):
+            k = rng.randrange(6)
+            good = bvll(rng.choice([0x0a, 0x0b, 0x04, 0x09]), C.npdu(rng.choice(pool)[1]))
+            if k == 0:
+                g = bytes(rng.randrange(256) for _ in range(rng.randrange(0, 10)))
+            elif k == 1:
+                g = bvll(rng.randrange(256), bytes(rng.randrange(256) for _ in range(rng.randrange(0, 8))))
+            elif k == 2:
+                m = bytearray(good); m[rng.randrange(4)] = rng.randrange(256); g = bytes(m)
+            elif k == 3:
+                g = good[:rng.randrange(len(good))]
+            elif k == 4:
+                g = bvll(rng.choice([0, 1, 2, 3, 5, 6, 7, 8]), bytes(rng.randrange(256) for _ in range(rng.choice([0, 2, 6, 10]))))
+            else:
+                g = good + bytes(rng.randrange(256) for _ in range(rng.randrange(1, 4)))
+            # keep garbage away from the invoke ids of the valid requests
+            if len(g) > 8 and g[8] in (77, 78):
+                g = g[:8] + bytes([79]) + g[9:]
+            frames.append(g)
+        v = bytearray(rp); v[2] = 77
+        frames.insert(rng.randrange(len(frames) + 1), bvll(0x0a, C.npdu(bytes(v))))
+        for f in frames:
+            raw.send(('192.168.1.10', 47808), f)
+        clock.run(300.0)
+
+        def acks(inv):
+            out = []
+            for s_, d_, x in raw.frames:
+                if len(x) >= 4 and x[0] == 0x81 and x[1] == 0x0a:
+                    r = C.parse_npdu_apdu(x[4:])
+                    if r and r[0] in (2, 3, 5, 6, 7) and r[1] == inv:
+                        out.append(r[0])
+            return out
+        if acks(77) != [3]:
+            failures.append({'kind': 'valid-request-among-link-garbage-not-answered', 'datagrams': [f.hex() for f in frames], 'replies': acks(77)})
+        v[2] = 78
+        raw.send(('192.168.1.10', 47808), bvll(0x0a, C.npdu(bytes(v))))
+        clock.run(300.0)
+        if acks(78) != [3]:
+            failures.append({'kind': 'valid-request-after-link-garbage-not-answered', 'datagrams': [f.hex() for f in frames], 'replies': acks(78)})
+        res = len(dev.smap.serverTransactions) + len(dev.smap.clientTransactions) + len([t for t in clock.tm.tasks if isinstance(t[-1], SSM)])
+        if res:
+            failures.append({'kind': 'residue-after-link-garbage', 'frames': [f[4:].hex() for f in frames if len(f) > 4],
+                             'datagrams': [f.hex() for f in frames], 'residue': res})
+        nontriv.add(tuple(frames))
+    samples.append({'direct': 'BVLL garbage + valid Original-Unicast request', 'example': bvll(0x0a, C.npdu(rp)).hex()})
     return failures, {'evaluations': n, 'distinct_nontrivial': len(nontriv), 'samples': samples}
 
 
@@ -335,7 +399,7 @@ def _has_reserved_maxapdu(frames_hex):
 def classify(f):
     # a confirmed request announcing a reserved max-APDU code (6..15) is appended to the server
     # transaction list before ServerSSM.idle raises on the code: one transaction stays for ever
-    if f.get('kind') in ('residue-after-garbage',) and _has_reserved_maxapdu(f.get('frames', [])) and f.get('residue') is not None:
+    if f.get('kind') in ('residue-after-garbage', 'residue-after-link-garbage') and _has_reserved_maxapdu(f.get('frames', [])) and f.get('residue') is not None:
         n = sum(1 for h in f['frames'] if _has_reserved_maxapdu([h]))
         if f['residue'] <= n:
             return 'C10-reserved-maxapdu-code-leak'
